@@ -206,6 +206,7 @@ class Executor:
         self.lemma_mode = False
         self.assert_count = 0
         self.named_ghosts = {}
+        self.list_info = {}          # id of a list's element array -> provenance (filter maps)
         self.pc_atoms = set()
         self.base_len = None
         from . import prelude
@@ -354,7 +355,7 @@ class Executor:
         o = obj_t
         if isinstance(T, (TSet, TDict, TList)):
             def get(sn=sn, field=field, T=T, o=o):
-                return T.from_leaves([a[o] for a in self.heap_leaves(sn, field, T)])
+                return T.from_leaves([z3.simplify(a[o]) for a in self.heap_leaves(sn, field, T)])
 
             def set_(v, sn=sn, field=field, T=T, o=o):
                 self.write_field_raw(sn, field, T, o, v)
@@ -1293,6 +1294,13 @@ class Executor:
         if hook is not None:
             self.null_check(obj, node)
             return hook(self, obj, node)
+        k_ = kl
+        while k_ is not None:
+            if attr in k_.open_methods:
+                # declared open (abstract / overridable by user subclasses)
+                self.null_check(obj, node)
+                return BoundMethod(obj, k_.open_methods[attr])
+            k_ = k_.parent
         if kl.qual:
             r = self.repo.find_method(kl.qual, attr)
             if r is not None:
